@@ -7,6 +7,8 @@
 //!                                                        top = largest object number (plain) or `-` (incremental)
 //!         | (one call|pos (script r...))              -> (res <rc> <delivered> <state> <resave same bytes 0/1>)
 //!         | (sweep (script r...) <hard> lo hi step)   -> (sweep (<rc> <delivered length> <max_id> <Size> <resave same>) ...)
+//!           for p = lo, lo+step, ... <= hi: the positional sink that follows the soft script for its first p bytes, then
+//!           answers <hard> (any r; ONE failure and healthy afterwards, or a failure for ever when it is `(st r)`)
 //!         | (path file|dir|full|(limit p) (sizes n...)) -> (pres <rc> <file content> <state> <resave same bytes 0/1>)
 //!         | (psweep (sizes n...) (at p...))           -> (psweep (<rc> <file length> <max_id> <Size> <resave same>) ...)
 //!           the REAL Document::save(path) / IncrementalDocument::save(path): a healthy temporary file; a path that is a
@@ -15,8 +17,20 @@
 //!           write with EFBIG).  `sizes` is read by the model only.  The document state is printed as `?` when it depends
 //!           on when the BufWriter flushed (failed save, file created, file shorter than the bytes written before the
 //!           mutation point; Props C19_save_path_residue); it is then only checked to be one of the two allowed states.
+//!         | (onelen call|pos (script r...))           -> (reslen (<rc> <delivered length> <max_id> <Size> <resave same>))   [big outputs]
+//!         | (sweepat (script r...) (tails (t r...) ...) (at p...))
+//!                                                     -> (sweepat (<rc> <delivered length> <max_id> <Size> <resave same>) ...)
+//!           for every listed p (outer loop) and every tail (inner loop): the positional sink that follows the soft script for
+//!           its first p bytes and then gives the answers of the tail (healthy afterwards, unless the tail ends in `(st r)`)
 //!   cfg carries, after the two mode words, the state before the save (max_id, trailer, written ids) for the model.
-//!   r ::= (a k) | i | z | (f kind)
+//!   r ::= (a k) | i | z | (f kind) | (rep n r) = r n times | (st r) = the hard answer r at this and EVERY later call
+//! A save that does not come back is a violation ("saving returns an error").  The scripted sink panics when the writer
+//! keeps calling it after STALL_LIMIT consecutive answers without progress (Ok(0), Interrupted, errors); the panic is caught
+//! around that save and reported as `FAIL ... save_to did not return: ...` (row `(hang)`), any other panic below save_to as
+//! `FAIL ... panic in save_to` (row `(panic)`); the remaining rows of the case are still run.  Every case runs in a worker
+//! thread that tells the driver thread which save it is in: when one takes more than SAVE_TIMEOUT_S seconds (a loop that
+//! does not even call the sink) the driver reports `FAIL <that save> did not return within .. s` (result `(hang)`), leaves
+//! the thread behind and goes on with the next case.
 //! The sinks implement std::io::Write from the script (call-driven: one answer per `write` call;
 //! positional: `(a k)` = the next k bytes are accepted in however many calls that takes) and are
 //! healthy once the script is used up.  The REAL Document::save_to / IncrementalDocument::save_to
@@ -43,7 +57,16 @@ enum Resp {
     Interrupted,
     Zero,
     Fail(ErrorKind),
+    /// the hard answer inside, at this and every later call (the script never gets past it)
+    Sticky(Box<Resp>),
 }
+
+/// a writer that is still calling `write` after this many consecutive answers without progress is not going to stop
+const STALL_LIMIT: usize = 10_000;
+/// seconds the driver waits for one save (+ re-save) before it reports that it did not return
+const SAVE_TIMEOUT_S: u64 = 30;
+/// longest `(rep n r)` accepted (keeps every legitimate burst far below STALL_LIMIT)
+const REP_MAX: u64 = 4_000;
 
 const KINDS: [(&str, ErrorKind); 12] = [
     ("other", ErrorKind::Other),
@@ -76,24 +99,52 @@ fn rc_sx(r: &std::io::Result<()>) -> Sx {
     }
 }
 
-fn resp_of(x: &Sx) -> Option<Resp> {
+fn is_hard(r: &Resp) -> bool {
+    matches!(r, Resp::Zero | Resp::Fail(_) | Resp::Accept(0))
+}
+
+/// one script item -> the answers it stands for (same function as resps_of_sx in coq/Run/RunC19.v)
+fn resps_of(x: &Sx) -> Option<Vec<Resp>> {
     if x.is_id("i") {
-        return Some(Resp::Interrupted);
+        return Some(vec![Resp::Interrupted]);
     }
     if x.is_id("z") {
-        return Some(Resp::Zero);
+        return Some(vec![Resp::Zero]);
     }
+    let a = x.args();
     match x.tag()? {
-        "a" => Some(Resp::Accept(x.args().first()?.as_u64()?)),
-        "f" => Some(Resp::Fail(kind_of(x.args().first()?)?)),
+        "a" if a.len() == 1 => Some(vec![Resp::Accept(a[0].as_u64()?)]),
+        "f" if a.len() == 1 => Some(vec![Resp::Fail(kind_of(&a[0])?)]),
+        "rep" if a.len() == 2 => {
+            let n = a[0].as_u64()?;
+            let inner = resps_of(&a[1])?;
+            if n > REP_MAX || inner.len() != 1 || matches!(inner[0], Resp::Sticky(_)) {
+                return None;
+            }
+            Some(vec![inner[0].clone(); n as usize])
+        }
+        "st" if a.len() == 1 => {
+            let inner = resps_of(&a[0])?;
+            if inner.len() != 1 || !is_hard(&inner[0]) {
+                return None;
+            }
+            Some(vec![Resp::Sticky(Box::new(inner[0].clone()))])
+        }
         _ => None,
     }
+}
+fn items_of(items: &[Sx]) -> Option<Vec<Resp>> {
+    let mut out = vec![];
+    for x in items {
+        out.extend(resps_of(x)?);
+    }
+    Some(out)
 }
 fn script_of(x: &Sx) -> Option<Vec<Resp>> {
     if x.tag()? != "script" {
         return None;
     }
-    x.args().iter().map(resp_of).collect()
+    items_of(x.args())
 }
 
 /// the soft script cut down to quota p (same function as cut_quota in coq/Run/RunC19.v)
@@ -129,11 +180,13 @@ struct ScriptSink {
     hard: Option<ErrorKind>,
     writes_after_hard: usize,
     flushes: usize,
+    /// consecutive `write` calls answered without taking a byte
+    stall: usize,
 }
 
 impl ScriptSink {
     fn new(script: Vec<Resp>, positional: bool) -> Self {
-        ScriptSink { script, positional, idx: 0, rem: None, data: vec![], hard: None, writes_after_hard: 0, flushes: 0 }
+        ScriptSink { script, positional, idx: 0, rem: None, data: vec![], hard: None, writes_after_hard: 0, flushes: 0, stall: 0 }
     }
     fn note_hard(&mut self, k: ErrorKind) {
         if self.hard.is_none() {
@@ -144,6 +197,34 @@ impl ScriptSink {
 
 impl Write for ScriptSink {
     fn write(&mut self, buf: &[u8]) -> std::io::Result<usize> {
+        let r = self.answer(buf);
+        match r {
+            Ok(n) if n > 0 => self.stall = 0,
+            _ => {
+                // no progress: an empty buffer, Ok(0), Interrupted or an error.  A correct writer stops after the first
+                // Ok(0) / error and retries Interrupted only as often as the script says it
+                self.stall += 1;
+                if self.stall > STALL_LIMIT {
+                    panic!(
+                        "c19 sink: the writer is still offering {} byte(s) at offset {} after {} consecutive answers without progress (last answer {:?})",
+                        buf.len(),
+                        self.data.len(),
+                        STALL_LIMIT,
+                        r.as_ref().map_err(|e| e.kind())
+                    );
+                }
+            }
+        }
+        r
+    }
+    fn flush(&mut self) -> std::io::Result<()> {
+        self.flushes += 1;
+        Ok(())
+    }
+}
+
+impl ScriptSink {
+    fn answer(&mut self, buf: &[u8]) -> std::io::Result<usize> {
         if buf.is_empty() {
             return Ok(0);
         }
@@ -151,14 +232,19 @@ impl Write for ScriptSink {
             self.writes_after_hard += 1;
         }
         let len = buf.len() as u64;
-        match self.script.get(self.idx).cloned() {
+        let (cur, sticky) = match self.script.get(self.idx).cloned() {
+            Some(Resp::Sticky(r)) => (Some(*r), true),
+            other => (other, false),
+        };
+        let adv = if sticky { 0 } else { 1 };
+        match cur {
             None => {
                 self.data.extend_from_slice(buf);
                 Ok(buf.len())
             }
             Some(Resp::Accept(k)) => {
                 if k == 0 {
-                    self.idx += 1;
+                    self.idx += adv;
                     self.note_hard(ErrorKind::WriteZero);
                     return Ok(0);
                 }
@@ -187,20 +273,18 @@ impl Write for ScriptSink {
                 Err(Error::new(ErrorKind::Interrupted, "c19 sink: interrupted"))
             }
             Some(Resp::Zero) => {
-                self.idx += 1;
+                self.idx += adv;
                 self.note_hard(ErrorKind::WriteZero);
                 Ok(0)
             }
             Some(Resp::Fail(k)) => {
-                self.idx += 1;
+                self.idx += adv;
                 self.note_hard(k);
                 Err(Error::new(k, "c19 sink: hard failure"))
             }
+            // (st r) holds hard answers only (resps_of) and was unwrapped above
+            Some(Resp::Sticky(_)) => unreachable!("nested sticky answer"),
         }
-    }
-    fn flush(&mut self) -> std::io::Result<()> {
-        self.flushes += 1;
-        Ok(())
     }
 }
 
@@ -314,7 +398,69 @@ fn content_of(bytes: &[u8]) -> Result<Sx, String> {
     ]))
 }
 
+/// why a save gave no result
+enum Lost {
+    /// it panicked: the sink's stall guard (`stalled`) or anything else below save_to
+    Panic { msg: String, stalled: bool },
+}
+
+impl Lost {
+    fn verdict(&self, what: &str) -> String {
+        match self {
+            Lost::Panic { msg, stalled: true } => format!("{} did not return: {}", what, msg),
+            Lost::Panic { msg, stalled: false } => format!("panic in {}: {}", what, msg.replace('\n', " ")),
+        }
+    }
+    fn sx(&self) -> Sx {
+        match self {
+            Lost::Panic { stalled: true, .. } => Sx::L(vec![Sx::id("hang")]),
+            Lost::Panic { .. } => Sx::L(vec![Sx::id("panic")]),
+        }
+    }
+}
+
+/// what the worker thread of a case is doing: the driver thread reads it to tell a save that never returns
+struct Watch {
+    cur: std::sync::Mutex<Option<(std::time::Instant, String)>>,
+}
+
+impl Watch {
+    fn new() -> Self {
+        Watch { cur: std::sync::Mutex::new(None) }
+    }
+    fn set(&self, v: Option<(std::time::Instant, String)>) {
+        *self.cur.lock().unwrap_or_else(|e| e.into_inner()) = v;
+    }
+    /// the save that has been running for more than SAVE_TIMEOUT_S seconds, if any
+    fn stuck(&self) -> Option<String> {
+        match &*self.cur.lock().unwrap_or_else(|e| e.into_inner()) {
+            Some((t, what)) if t.elapsed().as_secs() >= SAVE_TIMEOUT_S => Some(what.clone()),
+            _ => None,
+        }
+    }
+}
+
+/// run one save: announced to the watchdog, panics caught (a panic of the sink's stall guard = the writer would
+/// never have stopped)
+fn caught<T>(w: &Watch, what: &str, f: impl FnOnce() -> T) -> Result<T, Lost> {
+    w.set(Some((std::time::Instant::now(), what.to_string())));
+    let r = std::panic::catch_unwind(std::panic::AssertUnwindSafe(f));
+    w.set(None);
+    r.map_err(|e| {
+        let msg = if let Some(s) = e.downcast_ref::<&str>() {
+            s.to_string()
+        } else if let Some(s) = e.downcast_ref::<String>() {
+            s.clone()
+        } else {
+            "?".to_string()
+        };
+        Lost::Panic { stalled: msg.starts_with("c19 sink: the writer is still offering"), msg }
+    })
+}
+
 struct Outcome {
+    /// the save was aborted by the sink's stall guard (or panicked): printed instead of a result row
+    lost: Option<Sx>,
     /// save(path) only: false when the document state after the save depends on when the BufWriter flushed
     state_known: bool,
     rc: Sx,
@@ -355,23 +501,54 @@ fn residue_verdict(rf: &Reference, after: &Sx, ok: bool) -> Option<String> {
     None
 }
 
-fn one_run(base: &Target, full: &[u8], rf: &Reference, script: Vec<Resp>, positional: bool) -> Outcome {
+/// (<rc> <delivered length> <max_id> <Size> <resave same>), or (hang) / (panic)
+fn row_sx(o: &Outcome) -> Sx {
+    match &o.lost {
+        Some(l) => l.clone(),
+        None => Sx::L(vec![o.rc.clone(), Sx::num(o.delivered.len()), Sx::num(o.max_id), Sx::num(o.size), Sx::boolean(o.resave_same)]),
+    }
+}
+
+fn lost_outcome(l: &Lost, what: &str) -> Outcome {
+    Outcome {
+        lost: Some(l.sx()),
+        state_known: true,
+        rc: Sx::id("-"),
+        delivered: vec![],
+        state: Sx::id("-"),
+        max_id: 0,
+        size: -1,
+        resave_same: false,
+        verdict: Some(l.verdict(what)),
+    }
+}
+
+/// the first violation found in a run
+struct FirstFail(Option<String>);
+impl FirstFail {
+    fn fail(&mut self, s: String) {
+        if self.0.is_none() {
+            self.0 = Some(s);
+        }
+    }
+}
+
+fn one_run(w: &Watch, at: &str, base: &Target, full: &[u8], rf: &Reference, script: Vec<Resp>, positional: bool) -> Outcome {
     let ref_content = &rf.content;
     let mut t = base.clone();
     let mut sink = ScriptSink::new(script, positional);
-    let r = t.save_to(&mut sink);
+    // the save under test, then a later save of the same document object to a healthy sink
+    let r = match caught(w, &format!("save_to{}", at), || t.save_to(&mut sink)) {
+        Ok(r) => r,
+        Err(l) => return lost_outcome(&l, "save_to"),
+    };
     let after = t.state_sx();
     let max_id = t.doc().max_id;
     let size = t.doc().trailer.get(b"Size").ok().and_then(|o| o.as_i64().ok()).unwrap_or(-1);
-    let mut verdict = None;
-    let mut fail = |s: String| {
-        if verdict.is_none() {
-            verdict = Some(s);
-        }
-    };
+    let mut first = FirstFail(None);
     let is_prefix = sink.data.len() <= full.len() && full[..sink.data.len()] == sink.data[..];
     if !is_prefix {
-        fail(format!(
+        first.fail(format!(
             "delivered bytes ({}) are not a prefix of the complete output ({}), result {:?}",
             sink.data.len(),
             full.len(),
@@ -379,38 +556,47 @@ fn one_run(base: &Target, full: &[u8], rf: &Reference, script: Vec<Resp>, positi
         ));
     }
     match (&r, sink.hard) {
-        (Ok(()), Some(k)) => fail(format!("sink failed with {:?} at byte {} but save returned Ok", k, sink.data.len())),
+        (Ok(()), Some(k)) => first.fail(format!("sink failed with {:?} at byte {} but save returned Ok", k, sink.data.len())),
         (Ok(()), None) => {
             if sink.data != full {
-                fail(format!("save returned Ok but the sink holds {} of {} bytes", sink.data.len(), full.len()));
+                first.fail(format!("save returned Ok but the sink holds {} of {} bytes", sink.data.len(), full.len()));
             }
         }
         (Err(e), Some(k)) => {
             if e.kind() != k {
-                fail(format!("sink failed with {:?} but save reported {:?}", k, e.kind()));
+                first.fail(format!("sink failed with {:?} but save reported {:?}", k, e.kind()));
             }
         }
-        (Err(e), None) => fail(format!("sink never failed but save returned Err({:?})", e.kind())),
+        (Err(e), None) => first.fail(format!("sink never failed but save returned Err({:?})", e.kind())),
     }
     if let Some(v) = residue_verdict(rf, &after, r.is_ok()) {
-        fail(v);
+        first.fail(v);
     }
     // a later save of the same document object to a healthy sink
     let mut out2: Vec<u8> = vec![];
-    let r2 = t.save_to(&mut out2);
+    let r2 = match caught(w, &format!("the re-save to a healthy sink after save_to{}", at), || t.save_to(&mut out2)) {
+        Ok(v) => v,
+        Err(l) => {
+            let mut o = lost_outcome(&l, "the re-save to a healthy sink");
+            if let Some(v) = first.0 {
+                o.verdict = Some(v);
+            }
+            return o;
+        }
+    };
     let resave_same = r2.is_ok() && out2 == full;
     match r2 {
-        Err(e) => fail(format!("re-save to a healthy sink failed: {:?}", e.kind())),
+        Err(e) => first.fail(format!("re-save to a healthy sink failed: {:?}", e.kind())),
         Ok(()) => {
             if ref_content.is_some() && Some(content_of(&out2)) != *ref_content {
-                fail(format!(
+                first.fail(format!(
                     "re-save after {} does not load back to the same content",
                     if r.is_ok() { "a successful save" } else { "a failed save" }
                 ));
             }
         }
     }
-    Outcome { state_known: true, rc: rc_sx(&r), delivered: sink.data, state: after, max_id, size, resave_same, verdict }
+    Outcome { lost: None, state_known: true, rc: rc_sx(&r), delivered: sink.data, state: after, max_id, size, resave_same, verdict: first.0 }
 }
 
 // ---------------------------------------------------------------------------------------------
@@ -527,56 +713,62 @@ fn dev_full_ok() -> bool {
 }
 
 /// Err(reason) = the environment cannot provide this device (skip)
-fn path_run(base: &Target, full: &[u8], rf: &Reference, target: PathTarget) -> Result<Outcome, String> {
+fn path_run(w: &Watch, base: &Target, full: &[u8], rf: &Reference, target: PathTarget) -> Result<Outcome, String> {
     let ref_content = &rf.content;
     let mut t = base.clone();
     let dir = scratch_dir();
     let file = dir.join("out.pdf");
     let _ = std::fs::remove_file(&file);
+    if matches!(target, PathTarget::Full) && !dev_full_ok() {
+        return Err("/dev/full is missing or accepts writes".into());
+    }
     // what the device will take, the error it gives afterwards
-    let (r, content, room, dev_err): (std::io::Result<()>, Vec<u8>, usize, Option<ErrorKind>) = match target {
-        PathTarget::File => {
-            let r = t.save_path(&file);
-            let c = std::fs::read(&file).unwrap_or_default();
-            (r, c, usize::MAX, None)
-        }
-        PathTarget::Dir => {
-            let r = t.save_path(&dir);
-            (r, vec![], 0, Some(ErrorKind::IsADirectory))
-        }
-        PathTarget::Full => {
-            if !dev_full_ok() {
-                return Err("/dev/full is missing or accepts writes".into());
+    type Saved = (std::io::Result<()>, Vec<u8>, usize, Option<ErrorKind>);
+    let done = caught(w, &format!("save(path) to {:?}", target), || -> Result<Saved, String> {
+        Ok(match target {
+            PathTarget::File => {
+                let r = t.save_path(&file);
+                let c = std::fs::read(&file).unwrap_or_default();
+                (r, c, usize::MAX, None)
             }
-            let r = t.save_path(std::path::Path::new("/dev/full"));
-            (r, vec![], 0, Some(ErrorKind::StorageFull))
-        }
-        PathTarget::Limit(p) => {
-            let r = {
-                let _g = match fsize::Guard::set(p) {
-                    Some(g) => g,
-                    None => return Err("RLIMIT_FSIZE cannot be set here".into()),
+            PathTarget::Dir => {
+                let r = t.save_path(&dir);
+                (r, vec![], 0, Some(ErrorKind::IsADirectory))
+            }
+            PathTarget::Full => {
+                let r = t.save_path(std::path::Path::new("/dev/full"));
+                (r, vec![], 0, Some(ErrorKind::StorageFull))
+            }
+            PathTarget::Limit(p) => {
+                let r = {
+                    let _g = match fsize::Guard::set(p) {
+                        Some(g) => g,
+                        None => return Err("RLIMIT_FSIZE cannot be set here".into()),
+                    };
+                    t.save_path(&file)
                 };
-                t.save_path(&file)
-            };
-            let c = std::fs::read(&file).unwrap_or_default();
-            (r, c, p.min(usize::MAX as u64) as usize, Some(ErrorKind::FileTooLarge))
+                let c = std::fs::read(&file).unwrap_or_default();
+                (r, c, p.min(usize::MAX as u64) as usize, Some(ErrorKind::FileTooLarge))
+            }
+        })
+    });
+    let (r, content, room, dev_err): Saved = match done {
+        Ok(Ok(v)) => v,
+        Ok(Err(why)) => return Err(why),
+        Err(l) => {
+            let _ = std::fs::remove_file(&file);
+            return Ok(lost_outcome(&l, "save(path)"));
         }
     };
     let _ = std::fs::remove_file(&file);
     let after = t.state_sx();
     let max_id = t.doc().max_id;
     let size = t.doc().trailer.get(b"Size").ok().and_then(|o| o.as_i64().ok()).unwrap_or(-1);
-    let mut verdict = None;
-    let mut fail = |s: String| {
-        if verdict.is_none() {
-            verdict = Some(s);
-        }
-    };
+    let mut first = FirstFail(None);
     let device_failed = matches!(target, PathTarget::Dir) || room < full.len();
     let is_prefix = content.len() <= full.len() && full[..content.len()] == content[..];
     if !is_prefix {
-        fail(format!(
+        first.fail(format!(
             "save(path) to {:?}: the file content ({} bytes) is not a prefix of the complete output ({}), result {:?}",
             target,
             content.len(),
@@ -585,7 +777,7 @@ fn path_run(base: &Target, full: &[u8], rf: &Reference, target: PathTarget) -> R
         ));
     }
     match (&r, device_failed) {
-        (Ok(()), true) => fail(format!(
+        (Ok(()), true) => first.fail(format!(
             "save(path) to {:?} returned Ok but the file holds {} of {} bytes (the device refused the rest)",
             target,
             content.len(),
@@ -593,31 +785,40 @@ fn path_run(base: &Target, full: &[u8], rf: &Reference, target: PathTarget) -> R
         )),
         (Ok(()), false) => {
             if content != full {
-                fail(format!("save(path) to {:?} returned Ok but the file holds {} of {} bytes", target, content.len(), full.len()));
+                first.fail(format!("save(path) to {:?} returned Ok but the file holds {} of {} bytes", target, content.len(), full.len()));
             }
         }
         (Err(e), true) => {
             if Some(e.kind()) != dev_err {
-                fail(format!("save(path) to {:?}: the device failed with {:?} but save reported {:?}", target, dev_err, e.kind()));
+                first.fail(format!("save(path) to {:?}: the device failed with {:?} but save reported {:?}", target, dev_err, e.kind()));
             }
             if content.len() > room {
-                fail(format!("save(path) to {:?}: the file holds {} bytes, more than the device had room for", target, content.len()));
+                first.fail(format!("save(path) to {:?}: the file holds {} bytes, more than the device had room for", target, content.len()));
             }
         }
-        (Err(e), false) => fail(format!("save(path) to {:?}: the device never failed but save returned Err({:?})", target, e.kind())),
+        (Err(e), false) => first.fail(format!("save(path) to {:?}: the device never failed but save returned Err({:?})", target, e.kind())),
     }
     if let Some(v) = residue_verdict(rf, &after, r.is_ok()) {
-        fail(v);
+        first.fail(v);
     }
     // a later save of the same document object to a healthy sink
     let mut out2: Vec<u8> = vec![];
-    let r2 = t.save_to(&mut out2);
+    let r2 = match caught(w, &format!("the re-save to a healthy sink after save(path) to {:?}", target), || t.save_to(&mut out2)) {
+        Ok(v) => v,
+        Err(l) => {
+            let mut o = lost_outcome(&l, "the re-save to a healthy sink");
+            if let Some(v) = first.0 {
+                o.verdict = Some(v);
+            }
+            return Ok(o);
+        }
+    };
     let resave_same = r2.is_ok() && out2 == full;
     match r2 {
-        Err(e) => fail(format!("re-save to a healthy sink failed: {:?}", e.kind())),
+        Err(e) => first.fail(format!("re-save to a healthy sink failed: {:?}", e.kind())),
         Ok(()) => {
             if ref_content.is_some() && Some(content_of(&out2)) != *ref_content {
-                fail(format!(
+                first.fail(format!(
                     "re-save after {} save(path) does not load back to the same content",
                     if r.is_ok() { "a successful" } else { "a failed" }
                 ));
@@ -625,187 +826,307 @@ fn path_run(base: &Target, full: &[u8], rf: &Reference, target: PathTarget) -> R
         }
     }
     let state_known = r.is_ok() || matches!(target, PathTarget::Dir) || content.len() >= rf.cut;
-    Ok(Outcome { state_known, rc: rc_sx(&r), delivered: content, state: after, max_id, size, resave_same, verdict })
+    Ok(Outcome { lost: None, state_known, rc: rc_sx(&r), delivered: content, state: after, max_id, size, resave_same, verdict: first.0 })
+}
+
+/// one case, run in the worker thread
+fn run_case(x: &Sx, w: &Watch) -> (Sx, String) {
+    let a = x.args();
+    if a.len() != 7 && a.len() != 8 {
+        return (Sx::id("badcase"), "skip".into());
+    }
+    let prev = a[2].as_bytes().unwrap_or_default();
+    let base = match build(&a[0], &a[1], &prev, a.get(7)) {
+        Some(t) => t,
+        None => return (Sx::id("badcase"), "skip".into()),
+    };
+    // reference output with a perfect sink
+    let job = &a[6];
+    let mut ref_doc = base.clone();
+    let mut full: Vec<u8> = vec![];
+    let r0 = match caught(w, "save_to with a perfect sink", || ref_doc.save_to(&mut full)) {
+        Ok(v) => v,
+        Err(l) => return (Sx::tagged("noref", vec![l.sx()]), format!("FAIL {}", l.verdict("save_to with a perfect sink"))),
+    };
+    if job.tag() == Some("perfect") {
+        // the generator's reference pass got no output for this document: saving to a sink that takes everything must succeed
+        return match &r0 {
+            Ok(()) => (Sx::tagged("perfect", vec![Sx::id("ok")]), "ok".into()),
+            Err(e) => (
+                Sx::tagged("perfect", vec![rc_sx(&r0)]),
+                format!("FAIL the sink never failed but save returned Err({:?})", e.kind()),
+            ),
+        };
+    }
+    if job.tag() == Some("ref") {
+        let stream = a[0].args().first().map(|m| m.is_id("stream")).unwrap_or(false);
+        let skip = |o: &Object| {
+            o.type_name()
+                .map(|n| [b"ObjStm".as_slice(), b"XRef".as_slice(), b"Linearized".as_slice()].contains(&n))
+                .unwrap_or(false)
+        };
+        let ids: Vec<Sx> = base.doc().objects.iter().filter(|(_, o)| !skip(o)).map(|(id, _)| Sx::num(id.0)).collect();
+        // number of bytes written before the save path mutates the document
+        let cut = if stream {
+            let tail = b"\nstartxref\n";
+            full.windows(tail.len()).rposition(|w| w == tail).and_then(|i| {
+                let rest = &full[i + tail.len()..];
+                let end = rest.iter().position(|&c| c == b'\n')?;
+                // startxref is relative to the file header (first "%PDF-"); the cut is a position in the delivered stream
+                let hdr = full.windows(5).position(|w| w == b"%PDF-").unwrap_or(0);
+                std::str::from_utf8(&rest[..end]).ok()?.parse::<usize>().ok().map(|x| x + hdr)
+            })
+        } else {
+            let key = b"trailer\n<<";
+            full.windows(key.len()).rposition(|w| w == key)
+        };
+        let mut rec = RecordingSink { data: vec![], sizes: vec![] };
+        let mut rec_doc = base.clone();
+        let r1 = match caught(w, "save_to with a recording sink", || rec_doc.save_to(&mut rec)) {
+            Ok(v) => v,
+            Err(l) => return (Sx::tagged("noref", vec![l.sx()]), format!("FAIL {}", l.verdict("save_to with a recording sink"))),
+        };
+        let sizes: Vec<Sx> = if r1.is_ok() && rec.data == full { rec.sizes.iter().map(|n| Sx::num(*n as i64)).collect() } else { vec![] };
+        return (
+            Sx::tagged(
+                "ref",
+                vec![
+                    rc_sx(&r0),
+                    Sx::bytes(&full),
+                    base.state_sx(),
+                    Sx::tagged("ids", ids),
+                    Sx::num(cut.map(|c| c as i64).unwrap_or(-1)),
+                    Sx::tagged("sizes", sizes),
+                    // largest object number: what Document::save_internal raises max_id to (not IncrementalDocument's)
+                    match &base {
+                        Target::Plain(d) => d.objects.keys().next_back().map(|k| Sx::num(k.0)).unwrap_or(Sx::id("-")),
+                        Target::Inc(_) => Sx::id("-"),
+                    },
+                ],
+            ),
+            "skip".into(),
+        );
+    }
+    if r0.is_err() {
+        return (Sx::tagged("noref", vec![rc_sx(&r0)]), "skip".into());
+    }
+    let mut verdict = "ok".to_string();
+    if bytes_of_parts(&a[3]).map(|f| f != full).unwrap_or(true) {
+        verdict = "FAIL the output for a perfect sink differs from the reference pass".into();
+    }
+    // "the same document": the content the reference output loads to.  Only meaningful when the
+    // document keeps lopdf's invariant max_id >= every object number (otherwise the xref stream's
+    // own object number max_id + 1 may collide with an object, which already breaks the FIRST save;
+    // that is a precondition of saving (C01), not a consequence of the failed save).
+    let max_id = base.doc().max_id;
+    // (a plain save raises max_id itself since /repo 19ab1a6; IncrementalDocument::save does not)
+    let wf = matches!(base, Target::Plain(_)) || base.doc().objects.keys().all(|(i, _)| *i <= max_id);
+    let rf = Reference {
+        content: if wf { Some(content_of(&full)) } else { None },
+        before: base.state_sx(),
+        before_raised: Sx::tagged(
+            "state",
+            vec![
+                Sx::num(base.doc().objects.keys().next_back().map_or(base.doc().max_id, |k| k.0.max(base.doc().max_id))),
+                dict_to_sx(&base.doc().trailer),
+            ],
+        ),
+        after_ok: ref_doc.state_sx(),
+        cut: a[4].as_u64().unwrap_or(0) as usize,
+    };
+    let bad = || (Sx::id("badcase"), "skip".to_string());
+    match job.tag() {
+        Some("one") | Some("onelen") => {
+            let ja = job.args();
+            let positional = ja.first().map(|s| s.is_id("pos")).unwrap_or(false);
+            let script = match ja.get(1).and_then(script_of) {
+                Some(s) => s,
+                None => return bad(),
+            };
+            let o = one_run(w, "", &base, &full, &rf, script, positional);
+            if let Some(v) = &o.verdict {
+                verdict = format!("FAIL {}", v);
+            }
+            if job.tag() == Some("onelen") {
+                return (Sx::tagged("reslen", vec![row_sx(&o)]), verdict);
+            }
+            if let Some(l) = o.lost {
+                return (Sx::tagged("res", vec![l]), verdict);
+            }
+            (Sx::tagged("res", vec![o.rc, Sx::bytes(&o.delivered), o.state, Sx::boolean(o.resave_same)]), verdict)
+        }
+        Some("sweepat") => {
+            let ja = job.args();
+            let s = match ja.first().and_then(script_of) {
+                Some(s) => s,
+                None => return bad(),
+            };
+            let tails: Vec<Vec<Resp>> = match ja.get(1) {
+                Some(ts) if ts.tag() == Some("tails") => {
+                    match ts.args().iter().map(|t| if t.tag() == Some("t") { items_of(t.args()) } else { None }).collect() {
+                        Some(v) => v,
+                        None => return bad(),
+                    }
+                }
+                _ => return bad(),
+            };
+            let ps: Vec<u64> = match ja.get(2) {
+                Some(at) if at.tag() == Some("at") => match at.args().iter().map(|v| v.as_u64()).collect() {
+                    Some(v) => v,
+                    None => return bad(),
+                },
+                _ => return bad(),
+            };
+            let mut out = vec![];
+            for p in ps {
+                for (ti, tail) in tails.iter().enumerate() {
+                    let mut script = cut_quota(&s, p);
+                    script.extend(tail.iter().cloned());
+                    let o = one_run(w, &format!(" at position {}, tail {}", p, ti), &base, &full, &rf, script, true);
+                    if let Some(v) = &o.verdict {
+                        if verdict == "ok" {
+                            verdict = format!("FAIL at position {}, tail {}: {}", p, ti, v);
+                        }
+                    }
+                    out.push(row_sx(&o));
+                }
+            }
+            (Sx::tagged("sweepat", out), verdict)
+        }
+        Some("sweep") => {
+            let ja = job.args();
+            let (s, h, lo, hi, step) = match (
+                ja.first().and_then(script_of),
+                ja.get(1).and_then(resps_of),
+                ja.get(2).and_then(|v| v.as_u64()),
+                ja.get(3).and_then(|v| v.as_u64()),
+                ja.get(4).and_then(|v| v.as_u64()),
+            ) {
+                (Some(s), Some(h), Some(lo), Some(hi), Some(step)) if step > 0 && hi >= lo => (s, h, lo, hi, step),
+                _ => return bad(),
+            };
+            let mut out = vec![];
+            let mut p = lo;
+            while p <= hi {
+                let mut script = cut_quota(&s, p);
+                script.extend(h.iter().cloned());
+                let o = one_run(w, &format!(" at failure position {}", p), &base, &full, &rf, script, true);
+                if let Some(v) = &o.verdict {
+                    if verdict == "ok" {
+                        verdict = format!("FAIL at failure position {}: {}", p, v);
+                    }
+                }
+                out.push(row_sx(&o));
+                p += step;
+            }
+            (Sx::tagged("sweep", out), verdict)
+        }
+        Some("path") => {
+            let ja = job.args();
+            let target = match ja.first().and_then(path_target_of) {
+                Some(t) => t,
+                None => return bad(),
+            };
+            match path_run(w, &base, &full, &rf, target) {
+                Err(why) => (Sx::tagged("nodevice", vec![Sx::bytes(why.as_bytes())]), "skip".into()),
+                Ok(o) => {
+                    if let Some(v) = &o.verdict {
+                        verdict = format!("FAIL {}", v);
+                    }
+                    if let Some(l) = o.lost {
+                        return (Sx::tagged("pres", vec![l]), verdict);
+                    }
+                    if o.state_known {
+                        (Sx::tagged("pres", vec![o.rc, Sx::bytes(&o.delivered), o.state, Sx::boolean(o.resave_same)]), verdict)
+                    } else {
+                        (Sx::tagged("pres", vec![o.rc, Sx::bytes(&o.delivered), Sx::tagged("state", vec![Sx::id("?")]), Sx::id("?")]), verdict)
+                    }
+                }
+            }
+        }
+        Some("psweep") => {
+            let ja = job.args();
+            let ps: Vec<u64> = match ja.get(1) {
+                Some(at) if at.tag() == Some("at") => at.args().iter().filter_map(|v| v.as_u64()).collect(),
+                _ => return bad(),
+            };
+            let mut out = vec![];
+            for p in ps {
+                match path_run(w, &base, &full, &rf, PathTarget::Limit(p)) {
+                    Err(why) => return (Sx::tagged("nodevice", vec![Sx::bytes(why.as_bytes())]), "skip".into()),
+                    Ok(o) => {
+                        if let Some(v) = &o.verdict {
+                            if verdict == "ok" {
+                                verdict = format!("FAIL {}", v);
+                            }
+                        }
+                        if let Some(l) = o.lost {
+                            out.push(l);
+                        } else if o.state_known {
+                            out.push(Sx::L(vec![o.rc, Sx::num(o.delivered.len()), Sx::num(o.max_id), Sx::num(o.size), Sx::boolean(o.resave_same)]));
+                        } else {
+                            out.push(Sx::L(vec![o.rc, Sx::num(o.delivered.len()), Sx::id("?"), Sx::id("?"), Sx::id("?")]));
+                        }
+                    }
+                }
+            }
+            (Sx::tagged("psweep", out), verdict)
+        }
+        _ => bad(),
+    }
 }
 
 fn main() {
-    lvh::drive(|x| {
-        let a = x.args();
-        if a.len() != 7 && a.len() != 8 {
-            return (Sx::id("badcase"), "skip".into());
+    // the loader (used here only to compare what a re-saved file loads to) fans every load out to a rayon pool of one thread
+    // per core; for the small files of this property that is all hand-over (6x the CPU time, most of it in sched_yield)
+    if std::env::var_os("RAYON_NUM_THREADS").is_none() {
+        std::env::set_var("RAYON_NUM_THREADS", "1");
+    }
+    // set once a save had to be abandoned: its thread is still running and may hold a lowered RLIMIT_FSIZE, so the
+    // save(path) jobs of the cases after it in this process are not run
+    let abandoned = std::sync::atomic::AtomicBool::new(false);
+    lvh::drive(move |x| {
+        use std::sync::atomic::Ordering;
+        if abandoned.load(Ordering::SeqCst) && x.args().get(6).map(|j| matches!(j.tag(), Some("path") | Some("psweep"))).unwrap_or(false) {
+            return (Sx::tagged("nodevice", vec![Sx::bytes(b"an abandoned save is still running in this process")]), "skip".into());
         }
-        let prev = a[2].as_bytes().unwrap_or_default();
-        let base = match build(&a[0], &a[1], &prev, a.get(7)) {
-            Some(t) => t,
-            None => return (Sx::id("badcase"), "skip".into()),
-        };
-        // reference output with a perfect sink
-        let mut full: Vec<u8> = vec![];
-        let mut ref_doc = base.clone();
-        let r0 = ref_doc.save_to(&mut full);
-        let job = &a[6];
-        if job.tag() == Some("ref") {
-            let stream = a[0].args().first().map(|m| m.is_id("stream")).unwrap_or(false);
-            let skip = |o: &Object| {
-                o.type_name()
-                    .map(|n| [b"ObjStm".as_slice(), b"XRef".as_slice(), b"Linearized".as_slice()].contains(&n))
-                    .unwrap_or(false)
-            };
-            let ids: Vec<Sx> = base.doc().objects.iter().filter(|(_, o)| !skip(o)).map(|(id, _)| Sx::num(id.0)).collect();
-            // number of bytes written before the save path mutates the document
-            let cut = if stream {
-                let tail = b"\nstartxref\n";
-                full.windows(tail.len()).rposition(|w| w == tail).and_then(|i| {
-                    let rest = &full[i + tail.len()..];
-                    let end = rest.iter().position(|&c| c == b'\n')?;
-                    // startxref is relative to the file header (first "%PDF-"); the cut is a position in the delivered stream
-                    let hdr = full.windows(5).position(|w| w == b"%PDF-").unwrap_or(0);
-                    std::str::from_utf8(&rest[..end]).ok()?.parse::<usize>().ok().map(|x| x + hdr)
-                })
-            } else {
-                let key = b"trailer\n<<";
-                full.windows(key.len()).rposition(|w| w == key)
-            };
-            let mut rec = RecordingSink { data: vec![], sizes: vec![] };
-            let r1 = base.clone().save_to(&mut rec);
-            let sizes: Vec<Sx> = if r1.is_ok() && rec.data == full { rec.sizes.iter().map(|n| Sx::num(*n as i64)).collect() } else { vec![] };
-            return (
-                Sx::tagged(
-                    "ref",
-                    vec![
-                        rc_sx(&r0),
-                        Sx::bytes(&full),
-                        base.state_sx(),
-                        Sx::tagged("ids", ids),
-                        Sx::num(cut.map(|c| c as i64).unwrap_or(-1)),
-                        Sx::tagged("sizes", sizes),
-                        // largest object number: what Document::save_internal raises max_id to (not IncrementalDocument's)
-                        match &base {
-                            Target::Plain(d) => d.objects.keys().next_back().map(|k| Sx::num(k.0)).unwrap_or(Sx::id("-")),
-                            Target::Inc(_) => Sx::id("-"),
-                        },
-                    ],
-                ),
-                "skip".into(),
-            );
-        }
-        if r0.is_err() {
-            return (Sx::tagged("noref", vec![rc_sx(&r0)]), "skip".into());
-        }
-        let mut verdict = "ok".to_string();
-        if bytes_of_parts(&a[3]).map(|f| f != full).unwrap_or(true) {
-            verdict = "FAIL the output for a perfect sink differs from the reference pass".into();
-        }
-        // a second perfect save of a fresh clone must give the same bytes (determinism)
-        // "the same document": the content the reference output loads to.  Only meaningful when the
-        // document keeps lopdf's invariant max_id >= every object number (otherwise the xref stream's
-        // own object number max_id + 1 may collide with an object, which already breaks the FIRST save;
-        // that is a precondition of saving (C01), not a consequence of the failed save).
-        let max_id = base.doc().max_id;
-        // (a plain save raises max_id itself since /repo 19ab1a6; IncrementalDocument::save does not)
-        let wf = matches!(base, Target::Plain(_)) || base.doc().objects.keys().all(|(i, _)| *i <= max_id);
-        let rf = Reference {
-            content: if wf { Some(content_of(&full)) } else { None },
-            before: base.state_sx(),
-            before_raised: Sx::tagged(
-                "state",
-                vec![
-                    Sx::num(base.doc().objects.keys().next_back().map_or(base.doc().max_id, |k| k.0.max(base.doc().max_id))),
-                    dict_to_sx(&base.doc().trailer),
-                ],
-            ),
-            after_ok: ref_doc.state_sx(),
-            cut: a[4].as_u64().unwrap_or(0) as usize,
-        };
-        match job.tag() {
-            Some("one") => {
-                let ja = job.args();
-                let positional = ja.first().map(|s| s.is_id("pos")).unwrap_or(false);
-                let script = match ja.get(1).and_then(script_of) {
-                    Some(s) => s,
-                    None => return (Sx::id("badcase"), "skip".into()),
-                };
-                let o = one_run(&base, &full, &rf, script, positional);
-                if let Some(v) = o.verdict {
-                    verdict = format!("FAIL {}", v);
+        // every case runs in a worker thread, watched from here: a save that never returns is a violation of "saving returns
+        // an error" and must not take the harness with it
+        let watch = std::sync::Arc::new(Watch::new());
+        let (tx, rx) = std::sync::mpsc::channel();
+        let (x2, w2) = (x.clone(), watch.clone());
+        let spawned = std::thread::Builder::new().stack_size(16 << 20).spawn(move || {
+            let r = std::panic::catch_unwind(std::panic::AssertUnwindSafe(|| run_case(&x2, &w2)));
+            let _ = tx.send(r.map_err(|e| {
+                if let Some(s) = e.downcast_ref::<&str>() {
+                    s.to_string()
+                } else if let Some(s) = e.downcast_ref::<String>() {
+                    s.clone()
+                } else {
+                    "?".to_string()
                 }
-                (Sx::tagged("res", vec![o.rc, Sx::bytes(&o.delivered), o.state, Sx::boolean(o.resave_same)]), verdict)
-            }
-            Some("sweep") => {
-                let ja = job.args();
-                let (s, h, lo, hi, step) = match (
-                    ja.first().and_then(script_of),
-                    ja.get(1).and_then(resp_of),
-                    ja.get(2).and_then(|v| v.as_u64()),
-                    ja.get(3).and_then(|v| v.as_u64()),
-                    ja.get(4).and_then(|v| v.as_u64()),
-                ) {
-                    (Some(s), Some(h), Some(lo), Some(hi), Some(step)) if step > 0 && hi >= lo => (s, h, lo, hi, step),
-                    _ => return (Sx::id("badcase"), "skip".into()),
-                };
-                let mut out = vec![];
-                let mut p = lo;
-                while p <= hi {
-                    let mut script = cut_quota(&s, p);
-                    script.push(h.clone());
-                    let o = one_run(&base, &full, &rf, script, true);
-                    if let Some(v) = o.verdict {
-                        if verdict == "ok" {
-                            verdict = format!("FAIL at failure position {}: {}", p, v);
-                        }
-                    }
-                    out.push(Sx::L(vec![o.rc, Sx::num(o.delivered.len()), Sx::num(o.max_id), Sx::num(o.size), Sx::boolean(o.resave_same)]));
-                    p += step;
+            }));
+        });
+        if let Err(e) = spawned {
+            panic!("c19 harness: cannot start the worker thread: {}", e);
+        }
+        loop {
+            match rx.recv_timeout(std::time::Duration::from_millis(250)) {
+                Ok(Ok(r)) => return r,
+                // (same report as lvh::drive gives for a panic in this thread)
+                Ok(Err(msg)) => {
+                    return (Sx::L(vec![Sx::id("panic"), Sx::bytes(msg.as_bytes())]), format!("FAIL panic: {}", msg.replace('\n', " ")))
                 }
-                (Sx::tagged("sweep", out), verdict)
-            }
-            Some("path") => {
-                let ja = job.args();
-                let target = match ja.first().and_then(path_target_of) {
-                    Some(t) => t,
-                    None => return (Sx::id("badcase"), "skip".into()),
-                };
-                match path_run(&base, &full, &rf, target) {
-                    Err(why) => (Sx::tagged("nodevice", vec![Sx::bytes(why.as_bytes())]), "skip".into()),
-                    Ok(o) => {
-                        if let Some(v) = o.verdict {
-                            verdict = format!("FAIL {}", v);
-                        }
-                        if o.state_known {
-                            (Sx::tagged("pres", vec![o.rc, Sx::bytes(&o.delivered), o.state, Sx::boolean(o.resave_same)]), verdict)
-                        } else {
-                            (Sx::tagged("pres", vec![o.rc, Sx::bytes(&o.delivered), Sx::tagged("state", vec![Sx::id("?")]), Sx::id("?")]), verdict)
-                        }
+                Err(std::sync::mpsc::RecvTimeoutError::Timeout) => {
+                    if let Some(what) = watch.stuck() {
+                        abandoned.store(true, Ordering::SeqCst);
+                        return (Sx::L(vec![Sx::id("hang")]), format!("FAIL {} did not return within {} s", what, SAVE_TIMEOUT_S));
                     }
                 }
-            }
-            Some("psweep") => {
-                let ja = job.args();
-                let ps: Vec<u64> = match ja.get(1) {
-                    Some(at) if at.tag() == Some("at") => at.args().iter().filter_map(|v| v.as_u64()).collect(),
-                    _ => return (Sx::id("badcase"), "skip".into()),
-                };
-                let mut out = vec![];
-                for p in ps {
-                    match path_run(&base, &full, &rf, PathTarget::Limit(p)) {
-                        Err(why) => return (Sx::tagged("nodevice", vec![Sx::bytes(why.as_bytes())]), "skip".into()),
-                        Ok(o) => {
-                            if let Some(v) = o.verdict {
-                                if verdict == "ok" {
-                                    verdict = format!("FAIL {}", v);
-                                }
-                            }
-                            if o.state_known {
-                                out.push(Sx::L(vec![o.rc, Sx::num(o.delivered.len()), Sx::num(o.max_id), Sx::num(o.size), Sx::boolean(o.resave_same)]));
-                            } else {
-                                out.push(Sx::L(vec![o.rc, Sx::num(o.delivered.len()), Sx::id("?"), Sx::id("?"), Sx::id("?")]));
-                            }
-                        }
-                    }
+                Err(std::sync::mpsc::RecvTimeoutError::Disconnected) => {
+                    return (Sx::L(vec![Sx::id("panic"), Sx::bytes(b"worker thread lost")]), "FAIL panic: the worker thread ended without a result".into())
                 }
-                (Sx::tagged("psweep", out), verdict)
             }
-            _ => (Sx::id("badcase"), "skip".into()),
         }
     });
     let _ = std::fs::remove_dir_all(std::env::temp_dir().join(format!("lvh-c19-{}", std::process::id())));
